@@ -304,7 +304,9 @@ func init() {
 		budget := keygenBudget(uint(o.int("ln"))) + time.Duration(o.int("count"))*200*time.Millisecond
 		ctx, cancel := context.WithTimeout(context.Background(), budget)
 		defer cancel()
-		out, err := exec.CommandContext(ctx, self, "keygen-workers-child", fmt.Sprint(o.int("ln")), fmt.Sprint(o.int("count")), fmt.Sprint(o.int("wait"))).Output()
+		cmdw := exec.CommandContext(ctx, self, "keygen-workers-child", fmt.Sprint(o.int("ln")), fmt.Sprint(o.int("count")), fmt.Sprint(o.int("wait")))
+		cmdw.Env = procsEnv(o)
+		out, err := cmdw.Output()
 		if ctx.Err() != nil {
 			return "timeout"
 		}
@@ -417,6 +419,21 @@ func c16GenerateDeadline(ln uint, nattr int) (c16Key, bool) {
 	}
 }
 
+// procsEnv: the environment of a child process; "procs" fixes the number of processors the Go
+// runtime may use there (a one-core container, a CPU quota)
+func procsEnv(o Op) []string {
+	if o["procs"] == nil {
+		return nil
+	}
+	var env []string
+	for _, e := range os.Environ() {
+		if !strings.HasPrefix(e, "GOMAXPROCS=") {
+			env = append(env, e)
+		}
+	}
+	return append(env, fmt.Sprintf("GOMAXPROCS=%d", o.int("procs")))
+}
+
 func terminatesOp(ln uint, nattr int, class string) Op {
 	return Op{"op": "keygen-terminates", "class": class, "fkey": "keygen-does-not-terminate", "label": "done", "nomodel": true,
 		"ln": int(ln), "nattr": nattr, "budget_ms": int(keygenBudget(ln) / time.Millisecond)}
@@ -456,6 +473,7 @@ func init() {
 		ctx, cancel := context.WithTimeout(context.Background(), time.Duration(o.int("budget_ms"))*time.Millisecond)
 		defer cancel()
 		cmd := exec.CommandContext(ctx, self, "keygen-child", fmt.Sprint(o.int("ln")), fmt.Sprint(o.int("nattr")))
+		cmd.Env = procsEnv(o)
 		err = cmd.Run()
 		if ctx.Err() != nil {
 			return "timeout"
@@ -645,6 +663,16 @@ func genC16(g *Rng, tier string, emit func(Op)) {
 		if pl.ln < 1024 {
 			emit(terminatesOp(pl.ln, 1+g.intn(20), fmt.Sprintf("keygen-terminates-%d", pl.ln)))
 		}
+	}
+	// the same on machines with one, two or three processors
+	for _, procs := range []int{1, 2, 3} {
+		for _, ln := range []uint{128, 160}[:3-min(procs, 2)] {
+			o := terminatesOp(ln, 1+g.intn(6), fmt.Sprintf("keygen-terminates-%d-procs%d", ln, procs))
+			o["procs"] = procs
+			emit(o)
+		}
+		emit(Op{"op": "keygen-workers", "class": fmt.Sprintf("keygen-workers-procs%d", procs), "key": "workers-left-after-keygen", "label": "clean",
+			"ln": 128, "count": 40, "workers": procs, "wait": 3000, "procs": procs})
 	}
 	leakEvents := 0
 	for _, pl := range plans {
